@@ -38,9 +38,9 @@ fn continuation(kind: Kind, uni: &[u32]) -> Vec<Op> {
         Op::Put(c + 2),
     ];
     match kind {
-        Kind::Lru => v.extend([Op::GetLru, Op::PeekOrPut(c + 3), Op::RemoveLru, Op::Iter(IterSpec { list: 0, fam: Fam::IterMut, steps: 6, pat: 0b010101, write: true, clone_at: 255 })]),
+        Kind::Lru => v.extend([Op::GetLru, Op::PeekOrPut(c + 3), Op::RemoveLru, Op::Iter(IterSpec { list: 0, fam: Fam::IterMut, steps: 6, pat: 0b010101, write: true, clone_at: 255, fin: 5 })]),
         Kind::Slru => v.extend([Op::PutProtected(a), Op::RemoveLruFrom(0), Op::PeekLruFrom(1)]),
-        Kind::TwoQ | Kind::Arc => v.extend([Op::Iter(IterSpec { list: 2, fam: Fam::Iter, steps: 5, pat: 0, write: false, clone_at: 255 }), Op::Put(c)]),
+        Kind::TwoQ | Kind::Arc => v.extend([Op::Iter(IterSpec { list: 2, fam: Fam::Iter, steps: 5, pat: 0, write: false, clone_at: 255, fin: 1 }), Op::Put(c)]),
         Kind::Wtlfu => v.extend([Op::Get(c + 1, false), Op::Put(c + 3)]),
     }
     v.push(Op::Purge);
